@@ -109,11 +109,11 @@ def gen_update(rnd, kind):
     if rnd.random() < 0.5:
         nh = NH6 + (LL6 if rnd.random() < 0.3 else b'')
         n6 = b''.join(W.prefix6(f'2001:db8:{rnd.randint(1, 0xffff):x}::', rnd.choice([32, 48, 64]), pid()) for _ in range(rnd.randint(1, 3)))
-        attrs.append(('mp_reach', W.mp_reach(2, 1, nh, n6)))
+        attrs.append(('mp_reach', W.mp_reach(2, 1, nh, n6, rnd.choice([0, 0, 0, 1, 255]))))
     elif kind == 'enh' and rnd.random() < 0.8:
         nh = NH6 + (LL6 if rnd.random() < 0.4 else b'')
         n4 = b''.join(W.prefix4(f'11.{rnd.randint(0, 255)}.{rnd.randint(0, 255)}.0', rnd.choice([16, 24]), None) for _ in range(rnd.randint(1, 3)))  # a range of its own: the NLRI field uses 10/8
-        attrs.append(('mp_reach', W.mp_reach(1, 1, nh, n4)))
+        attrs.append(('mp_reach', W.mp_reach(1, 1, nh, n4, rnd.choice([0, 0, 0, 1, 255]))))
     if rnd.random() < 0.3:
         attrs.append(('mp_unreach', W.mp_unreach(2, 1, W.prefix6(f'2001:db9:{rnd.randint(1, 0xffff):x}::', 48, pid()))))
     rnd.shuffle(attrs)
